@@ -233,6 +233,11 @@ func (el *eventloop) open(c *conn) error {
 	c.opened = true
 
 	out, action := el.eventHandler.OnOpen(c)
+	if !c.opened {
+		// The connection has been closed inside OnOpen (e.g. by EventLoop.Close or
+		// a failed write), its file descriptor must not be touched anymore.
+		return el.handleAction(c, action)
+	}
 	if out != nil {
 		if err := c.open(out); err != nil {
 			return err
